@@ -51,7 +51,10 @@ def set_mutation_sink(lst):
 
 
 class InjectedError(Exception):
-    """The exception kind a failing source or callable raises."""
+    """The exception kind a failing source or callable raises (falsy: an exception is one whatever its truth value)."""
+
+    def __bool__(self):
+        return False
 
 
 class InjectedTypeError(TypeError):
@@ -60,6 +63,9 @@ class InjectedTypeError(TypeError):
 
 class Cancelled(BaseException):
     """What the driver throws into a suspended operation (cancellation)."""
+
+    def __bool__(self):
+        return False
 
 
 # --------------------------------------------------------------------------- values
